@@ -99,6 +99,15 @@ func (p *Parser) Parse(source string) (Node, error) {
 		return nil, fmt.Errorf("parsing error: %w", err)
 	}
 
+	// The outer parse stops early only at a closing or branching tag (endif, endfor, else, ...).
+	// At top level nothing is open, so such a tag is stray: report it instead of silently
+	// dropping the rest of the template
+	if p.tokenIndex+1 < len(p.tokens) && p.tokens[p.tokenIndex].Type != TOKEN_EOF {
+		stray := p.tokens[p.tokenIndex+1]
+		ReleaseTokenSlice(p.tokens)
+		return nil, fmt.Errorf("parsing error: unexpected '%s' tag at line %d (no block is open)", stray.Value, stray.Line)
+	}
+
 	// Clean up token slice after successful parsing
 	ReleaseTokenSlice(p.tokens)
 
